@@ -635,6 +635,12 @@ func (p *poolWorker) rep(r int) string {
 	}
 	b := p.pool.Get(w.Cap)
 	len0 := len(b)
+	// whatever Get hands out carries nobody's bytes, neither in its length nor in the capacity behind it (a holder
+	// that extends the slice within its capacity would otherwise read an earlier holder's data); every worker writes
+	// non-zero bytes only, so any non-zero byte here is somebody's
+	if nz := nonZeroCount(b[:cap(b)]); nz > 0 {
+		return fmt.Sprintf("Get len=%d BROKEN: the slice handed out by Get carries %d non-zero bytes of an earlier holder within its capacity %d", len0, nz, cap(b))
+	}
 	if w.Style == "append" {
 		b = append(b, pattern...)
 	} else {
@@ -657,6 +663,16 @@ func (p *poolWorker) rep(r int) string {
 	}
 	p.pool.Put(b)
 	return res
+}
+
+func nonZeroCount(b []byte) int {
+	n := 0
+	for _, x := range b {
+		if x != 0 {
+			n++
+		}
+	}
+	return n
 }
 
 func firstDiff(a, b []byte) int {
